@@ -314,6 +314,43 @@ def obj_has(I, st, v, name):
     return None
 
 
+def _is_not_implemented(r):
+    return isinstance(r, Opaque) and r.desc == "NotImplemented"
+
+
+def _obj_cls(st, v):
+    return st.get(v).cls if isinstance(v, Ref) and st.get(v).kind == "obj" else None
+
+
+def _right_first(I, st, a, b, name):
+    """CPython tries the right operand's (reflected) method before the left operand's when type(b) is a proper subclass of
+    type(a) and provides the method"""
+    ca, cb = _obj_cls(st, a), _obj_cls(st, b)
+    if ca is None or cb is None or ca == cb or not I.is_subclass(cb, ca):
+        return False
+    return I.class_lookup(cb, name)[0] is not None
+
+
+def _total_ordering(I, st, v):
+    c = _obj_cls(st, v)
+    if c is None:
+        return False
+    for k in I.mro(c):
+        if isinstance(k, ClassVal):
+            for d in k.node.decorator_list:
+                if (d.attr if isinstance(d, ast.Attribute) else _b.getattr(d, "id", None)) == "total_ordering":
+                    return True
+    return False
+
+
+def _cmp_truth(I, st, r):
+    """the value of `a < b` / `a == b` is whatever the method returned (only `if` / `not` convert it); the model hands
+    comparison results on as truth values, which is the same thing only for bools"""
+    if isinstance(r, bool) or (is_z3(r) and z3.is_bool(r)):
+        return r
+    raise Unsupported("rich comparison method returned a non-bool value")
+
+
 def compare(I, st, op, a, b):
     """yield (st, python bool | z3 Bool | Exc)"""
     from . import npmodel
@@ -337,27 +374,98 @@ def compare(I, st, op, a, b):
             yield st, op == "NotEq"
             return
     if op in ("Eq", "NotEq"):
+        if op == "NotEq" and (obj_has(I, st, a, "__ne__") is not None or obj_has(I, st, b, "__ne__") is not None):
+            # a user-defined __ne__ is what != calls (only the DEFAULT __ne__ inverts __eq__)
+            if _right_first(I, st, a, b, "__ne__") or obj_has(I, st, a, "__ne__") is None:
+                a, b = b, a
+            m = obj_has(I, st, a, "__ne__")
+            for st1, r in I.call(m, [a, b], {}, st):
+                if isinstance(r, Exc):
+                    yield st1, r
+                elif _is_not_implemented(r):
+                    raise Unsupported("__ne__ returned NotImplemented")
+                else:
+                    yield st1, _cmp_truth(I, st1, r)
+            return
         m = obj_has(I, st, a, "__eq__")
-        if m is None and obj_has(I, st, b, "__eq__") is not None:
+        if (m is None and obj_has(I, st, b, "__eq__") is not None) or _right_first(I, st, a, b, "__eq__"):
+            # the right operand's __eq__ is the one to call when the left has none, and FIRST when the right operand's
+            # class is a proper subclass of the left operand's class
             a, b = b, a
             m = obj_has(I, st, a, "__eq__")
         if m is not None:
             for st1, r in I.call(m, [a, b], {}, st):
                 if isinstance(r, Exc):
                     yield st1, r
+                elif _is_not_implemented(r):
+                    # CPython then asks the other operand and finally falls back to identity
+                    raise Unsupported("__eq__ returned NotImplemented")
                 else:
-                    t = I.truth(r, st1)
+                    t = _cmp_truth(I, st1, r)
                     yield st1, (t if op == "Eq" else znot(t))
             return
         r = eq_values(I, st, a, b)
         yield st, (r if op == "Eq" else znot(r))
         return
-    # ordering
-    dunder = {"Lt": "__lt__", "LtE": "__le__", "Gt": "__gt__", "GtE": "__ge__"}[op]
+    # ordering: a.__op__(b); if that is missing (or returns NotImplemented) the REFLECTED method of b: a < b -> b.__gt__(a);
+    # the reflected method comes first when type(b) is a proper subclass of type(a); functools.total_ordering derives the
+    # missing methods from __lt__ and __eq__
+    dunders = {"Lt": "__lt__", "LtE": "__le__", "Gt": "__gt__", "GtE": "__ge__"}
+    dunder = dunders[op]
+    rdunder = dunders[{"Lt": "Gt", "LtE": "GtE", "Gt": "Lt", "GtE": "LtE"}[op]]
     m = obj_has(I, st, a, dunder)
-    if m is not None:
+    mr = obj_has(I, st, b, rdunder)
+    if (m is None and _total_ordering(I, st, a)) or (mr is None and _total_ordering(I, st, b)):
+        if m is not None:
+            pass
+        elif _total_ordering(I, st, a) and obj_has(I, st, a, "__lt__") is not None and not isinstance(obj_has(I, st, a, "__eq__"), type(None)) and all(
+                obj_has(I, st, a, d) is None for d in ("__le__", "__gt__", "__ge__")):
+            lt = obj_has(I, st, a, "__lt__")
+            for st1, r in I.call(lt, [a, b], {}, st):
+                if isinstance(r, Exc):
+                    yield st1, r
+                    continue
+                if _is_not_implemented(r):
+                    raise Unsupported("__lt__ returned NotImplemented under total_ordering")
+                for st2, isLt in I.branch(st1, _cmp_truth(I, st1, r)):
+                    if op == "GtE":  # not (a < b)
+                        yield st2, (not isLt)
+                    elif op == "LtE":  # a < b or a == b
+                        if isLt:
+                            yield st2, True
+                        else:
+                            yield from compare(I, st2, "Eq", a, b)
+                    else:  # Gt: not (a < b) and a != b
+                        if isLt:
+                            yield st2, False
+                        else:
+                            yield from compare(I, st2, "NotEq", a, b)
+            return
+        else:
+            raise Unsupported("functools.total_ordering: comparison derived from a method other than __lt__")
+    first_reflected = mr is not None and _right_first(I, st, a, b, rdunder)
+    if m is not None and not first_reflected:
         for st1, r in I.call(m, [a, b], {}, st):
-            yield st1, (r if isinstance(r, Exc) else I.truth(r, st1))
+            if not isinstance(r, Exc) and _is_not_implemented(r):
+                if mr is None:
+                    yield st1, exc("TypeError", "'%s' not supported between %r and %r" % (op, a, b))
+                    continue
+                for st2, r2 in I.call(mr, [b, a], {}, st1):
+                    if not isinstance(r2, Exc) and _is_not_implemented(r2):
+                        yield st2, exc("TypeError", "'%s' not supported between %r and %r" % (op, a, b))
+                    else:
+                        yield st2, (r2 if isinstance(r2, Exc) else _cmp_truth(I, st2, r2))
+                continue
+            yield st1, (r if isinstance(r, Exc) else _cmp_truth(I, st1, r))
+        return
+    if mr is not None:
+        for st1, r in I.call(mr, [b, a], {}, st):
+            if not isinstance(r, Exc) and _is_not_implemented(r):
+                if m is not None:
+                    raise Unsupported("reflected comparison returned NotImplemented")
+                yield st1, exc("TypeError", "'%s' not supported between %r and %r" % (op, a, b))
+                continue
+            yield st1, (r if isinstance(r, Exc) else _cmp_truth(I, st1, r))
         return
     if isinstance(a, tuple) and isinstance(b, tuple):
         yield st, tuple_order(I, st, op, list(a), list(b))
@@ -512,7 +620,7 @@ def contains(I, st, container, item):
             yield st, disj(parts)
             return
         if e.kind == "set":
-            yield st, I.hashable(item) in e.items
+            yield st, I.set_elem(st, item, e.items) in e.items
             return
         if e.kind == "dict":
             if symmode(I, st, e, item):
@@ -1065,6 +1173,25 @@ def delitem(I, st, obj, idx):
 
 
 # ---------------------------------------------------------------------------- iteration
+def iterator_start(I, st, v):
+    """a consumer (list(it), sum(it), `for x in it` ...) starts to take items from the iterator object v (values.IterE):
+    what the eagerly computed items were computed from must be unchanged (CPython computes them only now), and an
+    iterator that a consumer has already run to its end is refused rather than delivered as empty"""
+    from .loops import lazy_note, lazy_check
+
+    e = st.get(v)
+    lazy_check(st, st.ghost.get(("lazy_src", v.id)))
+    lazy_note(st, v, e.items, own=False)  # consuming it empties it: only what it was computed from is watched
+    if e.pending is not None:
+        raise Unsupported("an iterator whose items raise when computed is consumed step by step")
+    if e.consumed:
+        raise Unsupported("an iterator object is consumed a second time (it is exhausted in Python)")
+    if e.free is not None:
+        env = I.env_of(st, e.free[0])
+        if env is None or any(n not in env or env[n] is not val for n, val in e.free[1].items()):
+            raise Unsupported("a variable read by a stored generator expression is rebound before the generator is consumed")
+
+
 def iterate(I, st, v):
     from .symex import FrozenList, FrozenDict, FrozenNd
 
@@ -1089,6 +1216,14 @@ def iterate(I, st, v):
         return [(v.start + k, x) for k, x in enumerate(inner)]
     if isinstance(v, Ref):
         e = st.get(v)
+        if e.__class__ is IterE:
+            # a full traversal of an iterator exhausts it; traversing it AGAIN yields nothing in CPython - refused
+            # (iterator_start), so that a model which walks its argument twice can never silently see the empty second pass
+            iterator_start(I, st, v)
+            items = list(e.items)
+            del e.items[:]
+            e.consumed = True
+            return items
         if e.kind in ("list", "deque"):
             from .loops import lazy_note, lazy_check
 
@@ -1096,16 +1231,6 @@ def iterate(I, st, v):
             # it was computed from must not have changed since (CPython would compute it only now)
             lazy_check(st, st.ghost.get(("lazy_src", v.id)))
             lazy_note(st, v, e.items)
-            if e.__class__ is IterE:
-                if e.pending is not None:
-                    raise Unsupported("an iterator whose items raise when computed is consumed step by step")
-                if e.consumed:
-                    raise Unsupported("an iterator object is consumed a second time (it is exhausted in Python)")
-                if e.free is not None:
-                    env = I.env_of(st, e.free[0])
-                    if env is None or any(n not in env or env[n] is not val for n, val in e.free[1].items()):
-                        raise Unsupported("a variable read by a stored generator expression is rebound before the generator is consumed")
-                e.consumed = True
             return list(e.items)
         if e.kind in ("set", "dict"):
             from .loops import lazy_note
@@ -1252,23 +1377,44 @@ def obj_binop(I, st, op, a, b, inplace=False, reflected=False):
             return
         yield from I.call(m, [b, a], {}, st)
         return
-    m = None
-    if inplace:
-        m = obj_has(I, st, a, "__i%s__" % nm)
-    if m is None:
-        m = obj_has(I, st, a, "__%s__" % nm)
-    if m is None:
-        m2 = obj_has(I, st, b, "__r%s__" % nm)
-        if m2 is not None:
-            yield from I.call(m2, [b, a], {}, st)
+    # CPython: a.__iop__(b) for an augmented assignment, then a.__op__(b), then b.__rop__(a); each step is skipped when the
+    # method is missing or returns NotImplemented; TypeError when nothing is left.  b.__rop__ is tried BEFORE a.__op__ when
+    # type(b) is a proper subclass of type(a) that overrides the reflected method.
+    cands = []
+    if inplace and obj_has(I, st, a, "__i%s__" % nm) is not None:
+        cands.append((obj_has(I, st, a, "__i%s__" % nm), [a, b]))
+    m = obj_has(I, st, a, "__%s__" % nm)
+    m2 = obj_has(I, st, b, "__r%s__" % nm)
+    ca, cb = _obj_cls(st, a), _obj_cls(st, b)
+    if ca is not None and cb is not None and ca == cb:
+        m2 = None  # same type: the reflected method is not tried
+    r_first = False
+    if m2 is not None and ca is not None and cb is not None and ca != cb and I.is_subclass(cb, ca):
+        r_first = I.class_lookup(cb, "__r%s__" % nm)[1] != I.class_lookup(ca, "__r%s__" % nm)[1]
+    if r_first:
+        cands.append((m2, [b, a]))
+    if m is not None:
+        cands.append((m, [a, b]))
+    if m2 is not None and not r_first:
+        cands.append((m2, [b, a]))
+
+    def attempt(st1, i):
+        if i == len(cands):
+            yield st1, exc("TypeError", "unsupported operand")
             return
-        yield st, exc("TypeError", "unsupported operand")
-        return
-    yield from I.call(m, [a, b], {}, st)
+        for st2, r in I.call(cands[i][0], cands[i][1], {}, st1):
+            if not isinstance(r, Exc) and _is_not_implemented(r):
+                yield from attempt(st2, i + 1)
+            else:
+                yield st2, r
+
+    yield from attempt(st, 0)
 
 
 def set_binop(I, st, op, ea, eb):
     a, b = ea.items, eb.items
+    for x in b:
+        I.set_elem(st, x, a)  # elements with a user-defined __eq__: identity must be the right notion of "same element"
     if op == "BitOr":
         r = a + [x for x in b if x not in a]
     elif op == "BitAnd":
